@@ -41,6 +41,9 @@ type Exec struct {
 	tailCtr     map[string]int
 	tailParts   map[string][]*Obligation
 	tailOrder   []string
+	expMemo     map[[3]int]*smt.Term // memo of expandForall for the query being built
+	matchMemo   map[[3]int]*smt.Term
+	skMemo      map[[3]int]*smt.Term
 	nbrCands    []*smt.Term // neighbours (k-1, k+1) of the current query's skolem indices
 	divFacts    map[[2]int]bool
 	bvLeaf      map[[2]int]*smt.Term // bit-vector constants standing for integer leaves of `bvtype` types
@@ -67,23 +70,30 @@ type Exec struct {
 	inlineStack []*ssa.Function
 	ModelTerms  map[string]*smt.Term
 	// recursive spec functions
-	recOpen   []recOpenT
-	recDefs   map[string]*recDef
-	recOrder  []string
-	recMemo   map[string]string
-	recReads  map[string]map[string]*smt.Term
-	recCtr    int
-	readLog   map[string]*smt.Term
-	loopParts map[string][]*Obligation
-	loopOrder []string
-	buildMu   sync.Mutex // serialises lazy query construction (the term context is not thread-safe)
-	assumed   map[int]bool
-	styleT    types.Type
-	tokenLog  []string
-	exitParts map[string][]*Obligation
-	exitOrder []string
-	idxTerms  map[int]bool
-	idxOrder  []*smt.Term
+	recOpen      []recOpenT
+	recDefs      map[string]*recDef
+	recOrder     []string
+	recMemo      map[string]string
+	recReads     map[string]map[string]*smt.Term
+	recCtr       int
+	readLog      map[string]*smt.Term
+	loopParts    map[string][]*Obligation
+	loopOrder    []string
+	buildMu      sync.Mutex     // serialises lazy query construction (the term context is not thread-safe)
+	histLinks    map[int]bool   // indices of the hypotheses (cut => path condition before the cut) added at forgetting cuts
+	linkBit      map[int]uint64 // link constant (term id) -> its bit
+	linkMemo     map[int]uint64
+	linkOverflow bool
+	noSlice      bool // query construction keeps every hypothesis (confirmation of "sat" answers, replay)
+	coi          int  // > 0: query construction keeps only the cone of influence of the goal, that many rounds (a further weakening)
+	dropLinks    bool // query construction leaves the history links out ("local" queries)
+	assumed      map[int]bool
+	styleT       types.Type
+	tokenLog     []string
+	exitParts    map[string][]*Obligation
+	exitOrder    []string
+	idxTerms     map[int]bool
+	idxOrder     []*smt.Term
 }
 
 func (ex *Exec) noteIdx(t *smt.Term) {
@@ -110,7 +120,8 @@ type Frame struct {
 	vals      map[ssa.Value]Val
 	prefix    string
 	defers    []*ssa.Defer
-	deferCond map[*ssa.Defer]*smt.Term // path condition under which each defer statement was reached
+	cuts      map[ssa.Instruction][]*Clause // cut clauses by the instruction they are attached to
+	deferCond map[*ssa.Defer]*smt.Term      // path condition under which each defer statement was reached
 	fc        *FuncContract
 	pc        *PkgContracts
 	entry     *State
@@ -123,6 +134,37 @@ type Frame struct {
 	edgeCond map[[2]int]*smt.Term
 	inReach  map[*ssa.BasicBlock]*smt.Term
 	curBlock *ssa.BasicBlock
+}
+
+// noteLink records a path-condition constant introduced at a loop head or a forgetting cut.
+func (ex *Exec) noteLink(k *smt.Term) {
+	if ex.linkBit == nil {
+		ex.linkBit = map[int]uint64{}
+	}
+	if len(ex.linkBit) < 64 {
+		ex.linkBit[k.ID] = 1 << uint(len(ex.linkBit))
+	} else {
+		ex.linkOverflow = true
+	}
+}
+
+// linksIn: the set (as bits) of link constants occurring in t.
+func (ex *Exec) linksIn(t *smt.Term) uint64 {
+	if b, ok := ex.linkBit[t.ID]; ok {
+		return b
+	}
+	if ex.linkMemo == nil {
+		ex.linkMemo = map[int]uint64{}
+	}
+	if b, ok := ex.linkMemo[t.ID]; ok {
+		return b
+	}
+	var b uint64
+	for _, a := range t.Args {
+		b |= ex.linksIn(a)
+	}
+	ex.linkMemo[t.ID] = b
+	return b
 }
 
 func (ex *Exec) assume(t *smt.Term) {
@@ -640,6 +682,20 @@ func (ex *Exec) newFrame(fn *ssa.Function, prefix string, fc *FuncContract, pc *
 	fr.loops = findLoops(fn)
 	if fc != nil {
 		for _, cl := range fc.Clauses {
+			if cl.Kind == "cut" {
+				in := ex.findAnchor(fn, cl.Anchor, cl.Site)
+				if in == nil {
+					ex.contractError(cl, fmt.Sprintf("cut: no statement of %s contains %q", fn.Name(), cl.Anchor))
+				}
+				if fr.cuts == nil {
+					fr.cuts = map[ssa.Instruction][]*Clause{}
+				}
+				fr.cuts[in] = append(fr.cuts[in], cl)
+			}
+		}
+	}
+	if fc != nil {
+		for _, cl := range fc.Clauses {
 			if cl.Loop != 0 {
 				found := cl.Loop == -1
 				for _, li := range fr.loops {
@@ -664,6 +720,40 @@ func (ex *Exec) newFrame(fn *ssa.Function, prefix string, fc *FuncContract, pc *
 		}
 	}
 	return fr
+}
+
+// findAnchor: the first instruction (in block order) of the nth (from 1; 0 means first) source line of the function
+// that contains text.
+func (ex *Exec) findAnchor(fn *ssa.Function, text string, nth int) ssa.Instruction {
+	firstOf := map[int]ssa.Instruction{}
+	var lines []int
+	for _, b := range fn.Blocks {
+		for _, in := range b.Instrs {
+			switch in.(type) {
+			case *ssa.Phi, *ssa.DebugRef:
+				continue
+			}
+			if !in.Pos().IsValid() {
+				continue
+			}
+			p := ex.Prog.Fset.Position(in.Pos())
+			if !strings.Contains(ex.Prog.sourceLine(p.Filename, p.Line), text) {
+				continue
+			}
+			if _, seen := firstOf[p.Line]; !seen {
+				firstOf[p.Line] = in
+				lines = append(lines, p.Line)
+			}
+		}
+	}
+	sort.Ints(lines)
+	if nth < 1 {
+		nth = 1
+	}
+	if nth > len(lines) {
+		return nil
+	}
+	return firstOf[lines[nth-1]]
 }
 
 type ContractError struct{ Msg string }
@@ -870,7 +960,7 @@ func (ex *Exec) runFrame(fr *Frame, args []Val, st0 *State, reach0 *smt.Term) ([
 				phiVals[phi] = ex.mergePhi(fr, phi, b, preds, conds)
 			}
 			if li := fr.loops[b]; li != nil {
-				ex.enterLoop(fr, li, b, st, reach, phiVals)
+				reach = ex.enterLoop(fr, li, b, st, reach, phiVals)
 			} else {
 				for phi, v := range phiVals {
 					fr.vals[phi] = v
@@ -882,6 +972,44 @@ func (ex *Exec) runFrame(fr *Frame, args []Val, st0 *State, reach0 *smt.Term) ([
 		for _, in := range b.Instrs {
 			if _, ok := in.(*ssa.Phi); ok {
 				continue
+			}
+			if fr.top && fr.cuts != nil {
+				for _, cl := range fr.cuts[in] {
+					env := ex.envFor(fr, st, fr.entryState(ex), nil)
+					env.atBlock = b
+					env.atInstr = in
+					goal := ex.evalBool(env, cl.E, cl)
+					label := cl.Label
+					if label == "" {
+						label = "cut"
+					}
+					if cl.Forget == "assume" {
+						ex.assume(c.Implies(cur, goal))
+						continue
+					}
+					ex.oblige("cut", label, cur, goal, in.Pos(), fr.prefix)
+					if cl.Forget == "pen" {
+						ex.havocKey(st, ex.penKey())
+						env = ex.envFor(fr, st, fr.entryState(ex), nil)
+						env.atBlock, env.atInstr = b, in
+						goal = ex.evalBool(env, cl.E, cl)
+						// from here on the path condition is a fresh Boolean tied to the history by one hypothesis (the link);
+						// queries are first tried without the links ("local"): what the cut states is then all that is known
+						// of the path before it
+						ck := c.Fresh("cut", smt.Bool)
+						if ex.histLinks == nil {
+							ex.histLinks = map[int]bool{}
+						}
+						n0 := len(ex.assumes)
+						ex.assume(c.Implies(ck, cur))
+						if len(ex.assumes) == n0+1 {
+							ex.histLinks[n0] = true
+						}
+						ex.noteLink(ck)
+						cur = ck
+					}
+					ex.assume(c.Implies(cur, goal))
+				}
 			}
 			switch x := in.(type) {
 			case *ssa.If:
@@ -1376,7 +1504,7 @@ func (fr *Frame) entryState(ex *Exec) *State {
 	return ex.entrySt
 }
 
-func (ex *Exec) enterLoop(fr *Frame, li *loopInfo, h *ssa.BasicBlock, st *State, reach *smt.Term, phiVals map[*ssa.Phi]Val) {
+func (ex *Exec) enterLoop(fr *Frame, li *loopInfo, h *ssa.BasicBlock, st *State, reach *smt.Term, phiVals map[*ssa.Phi]Val) *smt.Term {
 	c := ex.W.C
 	li.kept = nil
 	// 1. invariants hold on entry
@@ -1502,7 +1630,22 @@ func (ex *Exec) enterLoop(fr *Frame, li *loopInfo, h *ssa.BasicBlock, st *State,
 		fresh[phi] = v
 		fr.vals[phi] = v
 	}
-	// 3. assume invariants in the havocked state
+	// 3. assume invariants in the havocked state. The path condition of the body is a fresh Boolean tied to the path
+	// into the loop by one hypothesis (a history link, as at a forgetting cut): the invariants are meant to carry all
+	// the body needs, and queries are first tried without the link
+	if !reach.IsTrue() && !reach.IsFalse() {
+		rk := c.Fresh(fmt.Sprintf("loop%d", li.ordinal), smt.Bool)
+		if ex.histLinks == nil {
+			ex.histLinks = map[int]bool{}
+		}
+		n0 := len(ex.assumes)
+		ex.assume(c.Implies(rk, reach))
+		if len(ex.assumes) == n0+1 {
+			ex.histLinks[n0] = true
+		}
+		ex.noteLink(rk)
+		reach = rk
+	}
 	env2 := ex.loopEnv(fr, li, st, fresh)
 	for _, cl := range li.invs {
 		ex.assume(c.Implies(reach, ex.evalBool(env2, cl.E, cl)))
@@ -1515,6 +1658,7 @@ func (ex *Exec) enterLoop(fr *Frame, li *loopInfo, h *ssa.BasicBlock, st *State,
 	for _, cl := range li.decr {
 		li.varPre = append(li.varPre, ex.evalInt(env2, cl.E, cl))
 	}
+	return reach
 }
 
 func (ex *Exec) invLabel(li *loopInfo, cl *Clause, i int) string {
